@@ -127,6 +127,140 @@ use crate::corpus::*;
 /// L2-L4 frames: the same IP addresses behind two different MACs, ARP / ND carrying link-layer
 /// addresses that differ from the frame's source MAC, SYNs to several destination addresses
 /// from one source endpoint.
+/// The responder's OWN replies fed back to it: for every frame g of the set (as is, and sent from
+/// the broadcast, the responder's own and two group MAC addresses, so that the reply is addressed
+/// to a MAC the responder accepts), r = reply(g) is sent right after g - once and twice - and its
+/// answer compared with the answer r gets in a fresh process.  What the responder SENT is no state
+/// a later frame may depend on.
+pub fn reflected_replies(rep: &mut Report, cfg: &Cfg, stage: &str, frames: &[PFrame]) {
+    let t0 = std::time::Instant::now();
+    let macs: [Option<Mac>; 5] = [None, Some([0xff; 6]), Some(crate::driver::MAC_SRV), Some([0x33, 0x33, 0, 0, 0, 1]), Some([0x01, 0, 0x5e, 0, 0, 1])];
+    let mut work: Vec<(String, Vec<u8>)> = Vec::new();
+    for f in frames {
+        for (k, m) in macs.iter().enumerate() {
+            let mut g = f.frame.clone();
+            if let Some(m) = m {
+                if g.len() < 12 {
+                    continue;
+                }
+                g[6..12].copy_from_slice(m);
+            }
+            work.push((format!("{}@srcmac{}", f.name, k), g));
+        }
+    }
+    let run1 = |cmds: &[Cmd]| -> Result<Vec<crate::driver::Out>, String> { Driver::spawn(cfg).and_then(|mut d| d.exec(cmds).map_err(|e| format!("{:?}", e))) };
+    let found: std::sync::Mutex<Vec<Violation>> = std::sync::Mutex::new(Vec::new());
+    let errors: std::sync::Mutex<Vec<String>> = std::sync::Mutex::new(Vec::new());
+    let reflected = std::sync::atomic::AtomicU64::new(0);
+    let answered_again = std::sync::atomic::AtomicU64::new(0);
+    let nthreads = 16usize;
+    std::thread::scope(|sc| {
+        for t in 0..nthreads {
+            let work = &work;
+            let found = &found;
+            let errors = &errors;
+            let reflected = &reflected;
+            let answered_again = &answered_again;
+            let run1 = &run1;
+            sc.spawn(move || {
+                for (idx, (name, g)) in work.iter().enumerate().filter(|(i, _)| i % nthreads == t) {
+                    let r = match run1(&[Cmd::Frame(g.clone())]) {
+                        Ok(o) if o[0].panicked => continue,
+                        Ok(o) => match &o[0].reply {
+                            Some(r) => r.clone(),
+                            None => continue,
+                        },
+                        Err(e) => {
+                            errors.lock().unwrap().push(format!("reference run of '{}': {}", name, e));
+                            continue;
+                        }
+                    };
+                    reflected.fetch_add(1, std::sync::atomic::Ordering::Relaxed);
+                    let alone = match run1(&[Cmd::Frame(r.clone())]) {
+                        Ok(o) => canon_reply(o[0].reply.as_deref()),
+                        Err(e) => {
+                            errors.lock().unwrap().push(format!("reference run of the reply to '{}': {}", name, e));
+                            continue;
+                        }
+                    };
+                    if alone != canon_reply(None) {
+                        answered_again.fetch_add(1, std::sync::atomic::Ordering::Relaxed);
+                    }
+                    let cmds = vec![Cmd::Frame(g.clone()), Cmd::Frame(r.clone()), Cmd::Frame(r.clone())];
+                    match run1(&cmds) {
+                        Ok(o) => {
+                            for k in 1..=2 {
+                                if o[k].panicked {
+                                    break;
+                                }
+                                let got = canon_reply(o[k].reply.as_deref());
+                                // a data segment of a validated flow may be answered differently the second time
+                                if got != alone && !(k == 2 && tcp_data_flow(&r).is_some()) {
+                                    found.lock().unwrap().push(Violation {
+                                        prop: "C08".into(),
+                                        key: format!("hidden-state:own-reply-fed-back:{}", name.split('@').next().unwrap_or("")),
+                                        what: format!("the responder's reply to '{}' is answered differently when it comes back right after that frame ({} time) than in a fresh process: {} vs {}", name, k, &got[..got.len().min(100)], &alone[..alone.len().min(100)]),
+                                        cfg: cfg.clone(),
+                                        cmds: cmds[..=k].to_vec(),
+                                        idx: idx as u64,
+                                        stage: stage.to_string(),
+                                    });
+                                    break;
+                                }
+                            }
+                        }
+                        Err(e) => errors.lock().unwrap().push(format!("history run of '{}': {}", name, e)),
+                    }
+                }
+            });
+        }
+    });
+    for v in found.into_inner().unwrap() {
+        rep.sink.violation(v);
+    }
+    for e in errors.into_inner().unwrap() {
+        rep.sink.machinery_errors.push(format!("{}: {}", stage, e));
+    }
+    rep.sink.count("reflected_replies", reflected.load(std::sync::atomic::Ordering::Relaxed));
+    rep.sink.count("reflected_replies_answered_alone", answered_again.load(std::sync::atomic::Ordering::Relaxed));
+    rep.stage(stage, &format!("{} frames x 5 Ethernet source addresses (as is, broadcast, the responder's own, IPv6 / IPv4 group): the reply to each, sent back right after it once and twice, is answered as in a fresh process", frames.len()), work.len() as u64 * 3, t0);
+}
+
+/// ICMP / ICMPv6 error messages of every kind quoting a datagram: the quoted datagram is TCP, UDP
+/// or ICMP, sent by the responder itself (quoted source = the frame's destination), by the client or
+/// by a third host; the quote is complete, cut to header + 8 bytes, cut inside the IP header, or a
+/// few L4 bytes short.  Traffic of another kind whatever it quotes: no answer, no state, and nothing
+/// of the quote shows in the events.
+pub fn icmp_error_frames() -> Vec<PFrame> {
+    use crate::corpus::*;
+    let mut v = Vec::new();
+    for v6 in [false, true] {
+        let f = flow(v6, 40000, 53);
+        let third = if v6 { Ip::parse("2001:db8::77") } else { Ip::V4([10, 0, 0, 77]) };
+        for (qn, qsrc, qdst) in [("own", f.sip, f.cip), ("client", f.cip, f.sip), ("third", third, f.cip)] {
+            for (pn, proto) in [("tcp", P_TCP), ("udp", P_UDP), ("icmp", if v6 { P_ICMP6 } else { P_ICMP })] {
+                let l4 = match proto {
+                    P_TCP => TcpSeg::new(53, 40000, 0x11223344, 1001, F_PSH | F_ACK, b"quoted").bytes(&qsrc, &qdst),
+                    P_UDP => udp(&qsrc, &qdst, 53, 40000, b"quoted"),
+                    _ => if v6 { icmp6(&qsrc, &qdst, 129, 0, &[0, 1, 0, 2, 9, 9]) } else { icmp4(0, 0, &[0, 1, 0, 2, 9, 9]) },
+                };
+                let quoted = ip(&qsrc, &qdst, proto, &l4);
+                let hl = if v6 { 40 } else { 20 };
+                for (cn, cut) in [("full", quoted.len()), ("h8", hl + 8), ("h4", hl + 4), ("h3", hl + 3), ("h0", hl), ("inhdr", hl - 4)] {
+                    let types: &[(u8, u8)] = if v6 { &[(1, 0), (1, 4), (2, 0), (3, 0), (4, 1)] } else { &[(3, 0), (3, 3), (3, 4), (11, 0), (11, 1), (12, 0), (4, 0), (5, 1)] };
+                    for (t, c) in types {
+                        let mut body = vec![0u8; 4];
+                        body.extend_from_slice(&quoted[..cut.min(quoted.len())]);
+                        let fr = if v6 { f.ip_frame(P_ICMP6, &icmp6(&f.cip, &f.sip, *t, *c, &body)) } else { f.ip_frame(P_ICMP, &icmp4(*t, *c, &body)) };
+                        v.push(pf(&format!("icmp-err-{}-{}-{}-quote-{}-{}-{}", if v6 { 6 } else { 4 }, t, c, qn, pn, cn), fr));
+                    }
+                }
+            }
+        }
+    }
+    v
+}
+
 pub fn l2l4_frames() -> Vec<PFrame> {
     let mut v = Vec::new();
     let c4 = match cli4() { Ip::V4(b) => b, _ => unreachable!() };
